@@ -196,7 +196,8 @@ def run_index(acc: Acc, seed: int, idx: int, nq: int, only=None) -> None:
                         continue
                     if got2 != got:
                         acc.violation(f"[q{qi}] 'W {text}': compiled-from-text filter returns {len(got2)} notes, structure route {len(got)}", {"seed": seed, "idx": idx, "label": f"q{qi}", "text": text}, cls="text route and structure route disagree")
-                if got is not None and qi % 12 == 5:
+                if got is not None and qi % 12 == 5 and "{" not in text and "}" not in text:
+                    # (braces belong to saved-query references at the command line, C15's subject; literals holding them are skipped here)
                     # the user-level route: `zorg query 'S note W … G none'` must print exactly those notes
                     from zmon.gen import history as hg
 
